@@ -17,6 +17,15 @@ _SCHED_NOTE = ('Choice points only where the event loop\'s ready queue is empty 
                'choice); worker jobs atomic; protocol time-outs (30 s) never fire; scripted daemon; fake '
                'plyvel stand-in.')
 CHECKS = {
+    'C07': ('exploration',
+            'stateless schedule exploration with iterative deviation bounding of the full system (block processor, mempool, notifications, sessions, clients)',
+            'Twelve scenarios (mempool entry then confirmation, quick blocks with churn, natural reorgs '
+            'returning / reconfirming / dropping txs, forced reorgs, cache-pressure flush, subscribe / '
+            'unsubscribe / query races, orphaned parent) with real client sessions over the wire and a '
+            'scheduled daemon; every choice vector with <= 1 (quick) / 2 (thorough) deviations (event or '
+            'timer overtaking, younger first, hold/release, stall/arrive).  At quiescence every held '
+            'status and header is judged against the protocol definition; real Notifications call '
+            'sequences are checked against C20\'s environment automaton.', _SCHED_NOTE, '3/C07'),
     'C09': ('exploration',
             'stateless schedule exploration with iterative deviation bounding (CHESS style) of the real mempool tracker in the full system',
             'Scenarios (synchronised mempool, new mempool, one daemon event: block with/without the index '
